@@ -135,6 +135,9 @@ class Connection(object):
 
         self.networking_thread = None
         self.new_networking_thread = None
+        self.socket = None
+        self.file_object = None
+        self._outgoing_packet_queue = deque()
         self.packet_listeners = []
         self.early_packet_listeners = []
         self.outgoing_packet_listeners = []
@@ -445,9 +448,15 @@ class Connection(object):
                    1 if ai[0] == socket.AF_INET6 else 2
         ai_faml, ai_type, ai_prot, _ai_cnam, ai_addr = min(info, key=key)
 
-        self.socket = socket.socket(ai_faml, ai_type, ai_prot)
-        self.socket.connect(ai_addr)
-        self.file_object = self.socket.makefile("rb", 0)
+        sock = socket.socket(ai_faml, ai_type, ai_prot)
+        try:
+            sock.connect(ai_addr)
+            file_object = sock.makefile("rb", 0)
+        except Exception:
+            sock.close()
+            raise
+        self.socket = sock
+        self.file_object = file_object
         self.options.compression_enabled = False
         self.options.compression_threshold = -1
         self.connected = True
